@@ -106,8 +106,15 @@ class Ctx:
         for c in names:
             self.classes[c] += 1
 
+    SAMPLE_AT = (3, 25, 150, 600)
+
+    def want_sample(self):
+        """True when the harness would like the current case written out as a sample."""
+        n = len(self.samples)
+        return n < self.MAX_SAMPLES and self.evaluations >= self.SAMPLE_AT[n]
+
     def sample(self, obj, every=1):
-        if len(self.samples) < self.MAX_SAMPLES and self.evaluations % every == 0:
+        if len(self.samples) < self.MAX_SAMPLES:
             self.samples.append(jsonable(obj))
 
     # --- violations ---------------------------------------------------------
